@@ -52,7 +52,7 @@ let () =
        | Some req -> print b (Model.handle req)
        | None -> Buffer.add_string b "(parse-error)");
       Buffer.add_char b '\n';
-      print_string (Buffer.contents b)
+      print_string (Buffer.contents b); flush stdout
     done
   with End_of_file -> ());
   flush stdout
